@@ -501,6 +501,7 @@ func opEncode(x *octx, in *input, variant int) (uint64, error) {
 			f.EncOptimize = mp4.OptimizeTrun
 		}
 	}
+	largeMdats(f, in)
 	var w bytes.Buffer
 	if err := f.Encode(&w); err != nil {
 		return 0, err
@@ -519,11 +520,31 @@ func opEncodeSW(x *octx, in *input, variant int) (uint64, error) {
 	if err != nil {
 		return 0, err
 	}
+	largeMdats(f, in)
 	sw := dirtysw.New(int(f.Size()) + 1024)
 	if err := f.EncodeSW(sw); err != nil {
 		return 0, err
 	}
 	return mix(bytesHash(sw.Bytes()), uint64(len(sw.Bytes()))), nil
+}
+
+// largeMdats asks, for every second input (by length: a property of the input, so the sequential reference
+// does the same), for 64-bit headers on the mdat boxes of the goroutine's own decoded file through the public
+// LargeSize field, as a file decoded from a 64-bit mdat header would carry it.
+func largeMdats(f *mp4.File, in *input) {
+	if len(in.data)%2 == 0 {
+		return
+	}
+	if f.Mdat != nil {
+		f.Mdat.LargeSize = true
+	}
+	for _, s := range f.Segments {
+		for _, fr := range s.Fragments {
+			if fr.Mdat != nil {
+				fr.Mdat.LargeSize = true
+			}
+		}
+	}
 }
 
 func moovOf(f *mp4.File) *mp4.MoovBox {
